@@ -115,6 +115,59 @@ Proof.
   apply in_or_app. right. apply in_or_app. right. left. reflexivity.
 Qed.
 
+(* the shape of a DOUBLE: an optional '-', an INT, the '.', the rest *)
+Lemma double_shape y : matches re_DOUBLE y ->
+  exists s0 a b, y = s0 ++ a ++ 46 :: b /\ (s0 = [] \/ s0 = [45]) /\ matches re_INT a.
+Proof.
+  unfold re_DOUBLE. cbn [alts cats]. intros H.
+  inversion H as [| |a1 b1 s1 t1 H0 H1| | | |]; subst. inversion H1 as [| |a2 b2 s2 t2 Hi H2| | | |]; subst.
+  inversion H2 as [| |a3 b3 s3 t3 H3 _| | | |]; subst. apply (lit_matches [46]) in H3. subst s3.
+  exists s1, s2, t3. split; [reflexivity|]. split; [|exact Hi].
+  unfold opt in H0. inversion H0 as [| | |a4 b4 s4 H4|a4 b4 s4 H4| |]; subst.
+  - right. exact (lit_matches [45] _ H4).
+  - left. inversion H4. reflexivity.
+Qed.
+
+Lemma split_unique (P : N -> Prop) : forall a i p q b x,
+  Forall P a -> Forall P i -> ~ P p -> ~ P q -> a ++ p :: b = i ++ q :: x -> a = i /\ p = q.
+Proof.
+  induction a as [|a0 a IH]; intros [|i0 i] p q b x Ha Hi Hp Hq E; cbn in E.
+  - injection E as -> _. split; reflexivity.
+  - injection E as -> _. inversion Hi; subst. contradiction.
+  - injection E as -> _. inversion Ha; subst. contradiction.
+  - injection E as -> E. inversion Ha; subst. inversion Hi; subst.
+    destruct (IH i p q b x) as [-> ->]; try assumption. split; reflexivity.
+Qed.
+
+Definition digit (x : N) : Prop := in_ranges x (chars re_INT) = true.
+
+Lemma int_digits i : matches re_INT i -> Forall digit i.
+Proof. intros H. apply Forall_forall. intros x Hx. exact (matches_chars _ _ H x Hx). Qed.
+
+Lemma dot_not_digit : ~ digit 46.
+Proof. unfold digit. vm_compute. discriminate. Qed.
+Lemma minus_not_digit : ~ digit 45.
+Proof. unfold digit. vm_compute. discriminate. Qed.
+
+Lemma int_nonempty : ~ matches re_INT [].
+Proof. intros H. apply nullable_matches in H. vm_compute in H. discriminate H. Qed.
+
+(* an INT followed by anything but a digit or the '.' is not the beginning of a DOUBLE,
+   with or without a leading '-' *)
+Lemma int_then_other i c s : matches re_INT i -> i <> [] -> c <> 46 -> ~ digit c ->
+  ~ matches re_DOUBLE (i ++ c :: s) /\ ~ matches re_DOUBLE (45 :: i ++ c :: s).
+Proof.
+  intros Mi Hne Hc Hd. pose proof (int_digits i Mi) as Di. split; intros H;
+    destruct (double_shape _ H) as (s0 & a & b & E & [->| ->] & Ma); pose proof (int_digits a Ma) as Da; cbn [app] in E.
+  - symmetry in E. destruct (split_unique digit a i 46 c b s Da Di dot_not_digit Hd E) as [_ E']. congruence.
+  - destruct i as [|d i']; [congruence|]. cbn [app] in E. injection E as -> _. inversion Di; subst. exact (minus_not_digit H2).
+  - destruct a as [|a0 a'].
+    + exact (int_nonempty Ma).
+    + cbn [app] in E. injection E as E0 _. subst a0. inversion Da; subst. exact (minus_not_digit H2).
+  - injection E as E. symmetry in E.
+    destruct (split_unique digit a i 46 c b s Da Di dot_not_digit Hd E) as [_ E']. congruence.
+Qed.
+
 (* '-' INT : a DOUBLE would need the '.', which neither the INT nor what may follow it supplies *)
 Lemma In_firstn {A} (x : A) n l : In x (firstn n l) -> In x l.
 Proof. intros H. rewrite <- (firstn_skipn n l). apply in_or_app. left. exact H. Qed.
@@ -137,32 +190,28 @@ Qed.
 Lemma minus_int_check : pair_check [K_DOUBLE] K_MINUS K_INT = true.
 Proof. vm_compute. reflexivity. Qed.
 
-Lemma int_no_dot : in_ranges 46 (chars re_INT) = false.
-Proof. vm_compute. reflexivity. Qed.
+Definition other (c : N) : Prop := c <> 46 /\ ~ digit c.
 
 Lemma minus_closed w1 i rest :
   valid (K_MINUS, w1) -> valid (K_INT, i) ->
-  (rest = [] \/ exists c r', rest = c :: r' /\ in_ranges c (chars re_DOUBLE) = false) ->
+  (rest = [] \/ exists c r', rest = c :: r' /\ other c) ->
   closed_in G w1 (i ++ rest).
 Proof.
   intros V1 V2 Hrest.
   destruct (valid_matches _ _ V1) as [_ M1]. apply (lit_matches [45]) in M1. subst w1.
   destruct (valid_matches _ _ V2) as [Hne M2]. change (rule_of K_INT) with re_INT in M2.
-  destruct i as [|d i']; [congruence|].
   intros k r Hin m [Hlo Hhi] Hm.
   destruct (in_dec tkind_eq_dec k [K_DOUBLE]) as [Hk|Hk].
-  - destruct Hk as [<-|[]]. rewrite (in_rule _ _ Hin) in Hm. change (rule_of K_DOUBLE) with re_DOUBLE in Hm.
-    pose proof (double_has_dot _ Hm) as Hdot. pose proof (matches_chars _ _ Hm) as Hch. clear V1 V2 Hm.
-    assert (Hnot : ~ In 46 ([45] ++ d :: i')).
-    { intros [E|E]; [discriminate E|]. pose proof (matches_chars _ _ M2 46 E) as H. rewrite int_no_dot in H. discriminate H. }
-    rewrite app_assoc in Hdot, Hch, Hhi.
-    destruct (Nat.le_gt_cases m (length ([45] ++ d :: i'))) as [Hle|Hgt].
-    + rewrite firstn_app_le in Hdot by exact Hle. apply Hnot. eapply In_firstn. exact Hdot.
-    + destruct Hrest as [->|(c & r' & -> & Hc)].
+  - destruct Hk as [<-|[]]. rewrite (in_rule _ _ Hin) in Hm. change (rule_of K_DOUBLE) with re_DOUBLE in Hm. clear V1 V2.
+    rewrite app_assoc in Hm, Hhi.
+    destruct (Nat.le_gt_cases m (length ([45] ++ i))) as [Hle|Hgt].
+    + rewrite firstn_app_le in Hm by exact Hle. pose proof (double_has_dot _ Hm) as Hdot. apply In_firstn in Hdot.
+      destruct Hdot as [E|E]; [discriminate E|]. apply dot_not_digit. exact (matches_chars _ _ M2 46 E).
+    + destruct Hrest as [->|(c & r' & -> & Hc1 & Hc2)].
       * rewrite app_nil_r in Hhi. lia.
-      * destruct (firstn_app_gt ([45] ++ d :: i') c r' m Hgt) as [x Ex]. rewrite Ex in Hch.
-        rewrite Hch in Hc; [discriminate Hc|]. apply in_or_app. right. left. reflexivity.
-  - cbn [app length] in Hlo.
+      * destruct (firstn_app_gt ([45] ++ i) c r' m Hgt) as [x Ex]. rewrite Ex in Hm.
+        rewrite <- app_assoc in Hm. exact (proj2 (int_then_other i c x M2 Hne Hc1 Hc2) Hm).
+  - destruct i as [|d i']; [congruence|]. cbn [app length] in Hlo.
     destruct (firstn_app_gt [45] d (i' ++ rest) m Hlo) as [x Ex]. cbn [app] in Ex, Hm. rewrite Ex in Hm.
     exact (pair_rule [K_DOUBLE] K_MINUS [45] K_INT d i' minus_int_check V1 V2 k r Hin Hk x Hm).
 Qed.
@@ -170,13 +219,13 @@ Qed.
 (* ---------- which kinds can be neighbours in a sentence ---------- *)
 Definition vals := [K_BOOLEAN; K_NULL; K_VERSION; K_STRING; K_DOUBLE; K_MINUS; K_INT; K_LB].
 Definition ops := [K_EQ; K_NE; K_GT; K_LT; K_GE; K_LE; K_CO; K_SW; K_EW; K_IN].
-Definition vlast := [K_BOOLEAN; K_NULL; K_VERSION; K_STRING; K_DOUBLE; K_INT; K_RB].
+Definition vlast := [K_BOOLEAN; K_NULL; K_VERSION; K_STRING; K_DOUBLE; K_INT; K_EXP; K_RB].
 Definition pfirst := [K_ATTRNAME; K_NOT; K_SP; K_LP].
 Definition plast := K_PR :: K_RP :: vlast.
 Definition adj : list (tkind * tkind) :=
   [(K_ATTRNAME, K_DOT); (K_DOT, K_ATTRNAME); (K_ATTRNAME, K_SP); (K_SP, K_PR)]
   ++ map (fun o => (K_SP, o)) ops ++ map (fun o => (o, K_SP)) ops ++ map (fun v => (K_SP, v)) vals
-  ++ [(K_MINUS, K_INT); (K_LB, K_INT); (K_LB, K_DOUBLE); (K_LB, K_STRING); (K_INT, K_COMMA); (K_DOUBLE, K_COMMA); (K_STRING, K_COMMA);
+  ++ [(K_MINUS, K_INT); (K_INT, K_EXP); (K_LB, K_INT); (K_LB, K_DOUBLE); (K_LB, K_STRING); (K_INT, K_COMMA); (K_DOUBLE, K_COMMA); (K_STRING, K_COMMA);
       (K_COMMA, K_INT); (K_COMMA, K_DOUBLE); (K_COMMA, K_STRING); (K_INT, K_RB); (K_DOUBLE, K_RB); (K_STRING, K_RB);
       (K_NOT, K_SP); (K_NOT, K_LP); (K_SP, K_LP); (K_LP, K_SP)]
   ++ map (fun f => (K_LP, f)) pfirst ++ map (fun f => (K_SP, f)) pfirst
@@ -196,6 +245,7 @@ Qed.
 Definition ex_of (k1 k2 : tkind) : list tkind :=
   match k1, k2 with
   | K_MINUS, K_INT => [K_DOUBLE]
+  | K_INT, K_EXP => [K_DOUBLE]
   | K_STRING, _ => [K_STRING]
   | K_LP, K_LP => [K_LP]
   | K_RP, K_RP => [K_RP]
@@ -206,9 +256,18 @@ Definition ex_of (k1 k2 : tkind) : list tkind :=
 Lemma adj_checks : forallb (fun p => pair_check (ex_of (fst p) (snd p)) (fst p) (snd p)) adj = true.
 Proof. vm_compute. reflexivity. Qed.
 
-(* what may follow an INT never occurs in a DOUBLE *)
+(* what may follow an INT is neither a digit nor the '.' *)
+Definition dd : list (N * N) := (46, 46) :: chars re_INT.
+
+Lemma dd_other c : in_ranges c dd = false -> other c.
+Proof.
+  unfold dd. cbn [in_ranges]. intros H. apply Bool.orb_false_elim in H. destruct H as [H1 H2]. split.
+  - intros ->. vm_compute in H1. discriminate H1.
+  - unfold digit. rewrite H2. discriminate.
+Qed.
+
 Lemma int_followers :
-  forallb (fun p => negb (tkind_eqb (fst p) K_INT) || ranges_disjoint (firsts (rule_of (snd p))) (chars re_DOUBLE)) adj = true.
+  forallb (fun p => negb (tkind_eqb (fst p) K_INT) || ranges_disjoint (firsts (rule_of (snd p))) dd) adj = true.
 Proof. vm_compute. reflexivity. Qed.
 
 (* a token text that stands alone; a string additionally ends at its closing quote *)
@@ -219,7 +278,7 @@ Lemma ex_ok k1 w1 k2 w2 : tok_ok (k1, w1) -> valid (k2, w2) -> ~ (k1 = K_MINUS /
   forall k, In k (ex_of k1 k2) -> forall c s, (exists w2', w2 = c :: w2') -> ~ matches (rule_of k) (w1 ++ c :: s).
 Proof.
   intros [V1 S1] V2 Hn k Hk c s [w2' ->]. cbn [fst snd] in S1.
-  destruct (valid_matches _ _ V1) as [_ M1]. destruct (valid_matches _ _ V2) as [_ M2]. clear V1 V2.
+  destruct (valid_matches _ _ V1) as [Hne1 M1]. destruct (valid_matches _ _ V2) as [_ M2]. clear V1 V2.
   destruct k1; cbn [ex_of In] in Hk; try contradiction Hk.
   - (* ( ( *) destruct k2; cbn [ex_of In] in Hk; try contradiction Hk. destruct Hk as [<-|[]].
     exact (lit_closed [40] w1 c s M1).
@@ -228,6 +287,12 @@ Proof.
   - (* - INT *) destruct k2; cbn [ex_of In] in Hk; try contradiction Hk. exfalso. apply Hn. split; reflexivity.
   - (* STRING *) assert (Hk' : k = K_STRING) by (destruct k2; cbn [ex_of In] in Hk; destruct Hk as [<-|[]]; reflexivity).
     subst k. exact (string_closed w1 c s (S1 eq_refl)).
+  - (* INT EXP *) destruct k2; cbn [ex_of In] in Hk; try contradiction Hk. destruct Hk as [<-|[]].
+    change (rule_of K_INT) with re_INT in M1. change (rule_of K_EXP) with re_EXP in M2. change (rule_of K_DOUBLE) with re_DOUBLE.
+    pose proof (matches_first _ _ _ M2) as Hc.
+    assert (Hd : ranges_disjoint (firsts re_EXP) dd = true) by (vm_compute; reflexivity).
+    destruct (dd_other c (ranges_disjoint_spec _ _ c Hd Hc)) as [Hc1 Hc2].
+    exact (proj1 (int_then_other w1 c s M1 Hne1 Hc1 Hc2)).
   - (* SP SP *) destruct k2; cbn [ex_of In] in Hk; try contradiction Hk. destruct Hk as [<-|[]].
     change (rule_of K_SP) with re_SP in *. destruct (sp_shape _ M2) as [n E]. injection E as -> _.
     exact (sp_sp_closed w1 s M1).
@@ -246,7 +311,7 @@ Proof.
     destruct (valid_head _ _ V3) as (c & w3' & -> & Hc). exists c, (w3' ++ cat_texts r3). split; [reflexivity|].
     pose proof int_followers as Hf. rewrite forallb_forall in Hf. specialize (Hf _ A3). cbn [fst snd] in Hf.
     unfold tkind_eqb in Hf. destruct (tkind_eq_dec K_INT K_INT) as [_|N]; [|congruence]. cbn [negb orb] in Hf.
-    exact (ranges_disjoint_spec _ _ c Hf Hc).
+    exact (dd_other c (ranges_disjoint_spec _ _ c Hf Hc)).
   - eapply pair_closed; [exact Hpc|exact (proj1 T1)|exact (proj1 T2)|]. apply ex_ok; [exact T1|exact (proj1 T2)|]. intros [_ E]. exact (N2 E).
   - eapply pair_closed; [exact Hpc|exact (proj1 T1)|exact (proj1 T2)|]. apply ex_ok; [exact T1|exact (proj1 T2)|]. intros [E _]. exact (N1 E).
 Qed.
